@@ -1,25 +1,38 @@
-"""pathlib seam: one-shot call faults that file *state* cannot express.
+"""File-system seam: one-shot call faults that file *state* cannot express.
 
 Installed in the process that runs the gotranx CLI (the C18 worker for in-process
 invocations, `cli_launcher.py` for real-process ones).  A fault is armed for the next
-invocation only, is keyed by resolved path, fires at most once and is counted when it
-actually fires.  Kinds:
+invocation only, fires at most once and is counted when it actually fires.  The seam sits
+at `open()` level (`builtins.open` / `io.open`, which `pathlib.Path.read_text`,
+`write_text` and `open` all go through), so it does not matter *how* the code under test
+reads or writes; `vanish` additionally hooks `Path.is_file`.  Kinds:
 
-  read_eio / read_eacces   Path.read_text(target) raises OSError(EIO) / PermissionError
+  read_eio / read_eacces   opening the target for reading raises OSError(EIO) / PermissionError
   vanish                   the target is unlinked at the instant of Path.is_file(target)
                            (TOCTOU between typer's existence check and load_ode)
-  write_enospc             Path.write_text(<any output>) raises ENOSPC before writing
-  write_partial            ... writes the first half of the data, then raises ENOSPC
+  vanish_at_open           the target is unlinked at the instant it is opened for reading
+                           (TOCTOU between is_file() and the read)
+  write_enospc             opening <a file under the project> for writing raises ENOSPC
+  write_partial            ... the first write() stores half of the data, then raises ENOSPC
+
+Read faults are keyed by the resolved path of the target; write faults apply to any file
+below the `under` directory (the simulated project), never to files elsewhere (formatter
+temp files, the harness's own plan/report files).
 """
 
 from __future__ import annotations
 
+import builtins
 import errno
+import io
 import os
 import pathlib
 
 _orig = {}
 _state = {"fault": None, "fired": 0, "log": []}
+
+READ_KINDS = ("read_eio", "read_eacces", "vanish_at_open")
+WRITE_KINDS = ("write_enospc", "write_partial")
 
 
 def _real(p) -> str:
@@ -35,52 +48,91 @@ def _match(p, target) -> bool:
     return _real(p) == target
 
 
+def _under(p, root) -> bool:
+    if not root:
+        return False
+    rp = _real(p)
+    return rp == root or rp.startswith(root.rstrip("/") + "/")
+
+
+class _PartialWriter:
+    """File object whose first write stores half of the data and then fails with ENOSPC."""
+
+    def __init__(self, fh, name):
+        self._fh = fh
+        self._name = name
+        self._done = False
+
+    def write(self, data):
+        if not self._done:
+            self._done = True
+            self._fh.write(data[: len(data) // 2])
+            self._fh.flush()
+            raise OSError(errno.ENOSPC, "No space left on device (injected)", self._name)
+        return self._fh.write(data)
+
+    def __enter__(self):
+        return self
+
+    def __exit__(self, *exc):
+        self._fh.close()
+        return False
+
+    def __getattr__(self, name):
+        return getattr(self._fh, name)
+
+
+def _fire(what: str, kind: str):
+    _state["fired"] += 1
+    _state["log"].append([what, kind])
+
+
+def _open(file, mode="r", *a, **kw):
+    f = _state["fault"]
+    if f and not _state["fired"] and isinstance(file, (str, bytes, os.PathLike)):
+        kind = f["kind"]
+        writing = any(c in mode for c in "wax+")
+        if not writing and kind in READ_KINDS and f.get("target") and _match(file, f["target"]):
+            _fire("open-r", kind)
+            if kind == "read_eio":
+                raise OSError(errno.EIO, "Input/output error (injected)", os.fspath(file))
+            if kind == "read_eacces":
+                raise PermissionError(errno.EACCES, "Permission denied (injected)", os.fspath(file))
+            try:
+                os.unlink(os.fspath(file))  # vanish_at_open: gone between the check and the read
+            except OSError:
+                pass
+        elif writing and kind in WRITE_KINDS and _under(file, f.get("under")):
+            _fire("open-w", kind)
+            if kind == "write_enospc":
+                raise OSError(errno.ENOSPC, "No space left on device (injected)", os.fspath(file))
+            return _PartialWriter(_orig["open"](file, mode, *a, **kw), os.fspath(file))
+    return _orig["open"](file, mode, *a, **kw)
+
+
 def install():
     if _orig:
         return
-    P = pathlib.Path
-    _orig["read_text"] = P.read_text
-    _orig["write_text"] = P.write_text
-    _orig["is_file"] = P.is_file
-
-    def read_text(self, *a, **kw):
-        f = _state["fault"]
-        if f and not _state["fired"] and f["kind"] in ("read_eio", "read_eacces") and _match(self, f.get("target")):
-            _state["fired"] += 1
-            _state["log"].append(["read_text", f["kind"]])
-            if f["kind"] == "read_eio":
-                raise OSError(errno.EIO, "Input/output error (injected)", str(self))
-            raise PermissionError(errno.EACCES, "Permission denied (injected)", str(self))
-        return _orig["read_text"](self, *a, **kw)
-
-    def write_text(self, data, *a, **kw):
-        f = _state["fault"]
-        if f and not _state["fired"] and f["kind"] in ("write_enospc", "write_partial") and _match(self, f.get("target")):
-            _state["fired"] += 1
-            _state["log"].append(["write_text", f["kind"]])
-            if f["kind"] == "write_partial":
-                _orig["write_text"](self, data[: len(data) // 2], *a, **kw)
-            raise OSError(errno.ENOSPC, "No space left on device (injected)", str(self))
-        return _orig["write_text"](self, data, *a, **kw)
+    _orig["open"] = builtins.open
+    _orig["is_file"] = pathlib.Path.is_file
 
     def is_file(self, *a, **kw):
         f = _state["fault"]
-        if f and not _state["fired"] and f["kind"] == "vanish" and _match(self, f.get("target")):
-            _state["fired"] += 1
-            _state["log"].append(["is_file", "vanish"])
+        if f and not _state["fired"] and f["kind"] == "vanish" and f.get("target") and _match(self, f["target"]):
+            _fire("is_file", "vanish")
             try:
                 os.unlink(os.fspath(self))
             except OSError:
                 pass
         return _orig["is_file"](self, *a, **kw)
 
-    P.read_text = read_text
-    P.write_text = write_text
-    P.is_file = is_file
+    builtins.open = _open
+    io.open = _open
+    pathlib.Path.is_file = is_file
 
 
 def arm(fault: dict | None):
-    """fault = {"kind": ..., "target": realpath or None}; None disarms."""
+    """fault = {"kind": ..., "target": realpath or None, "under": project dir}; None disarms."""
     _state["fault"] = dict(fault) if fault else None
     _state["fired"] = 0
     _state["log"] = []
